@@ -160,8 +160,76 @@ func checkBodyReadWhole(c *Ctx) {
 	R.Floor("R18.4:body-reads", n, 1)
 }
 
+// checkCachedValueUntouched (R18.3c, shared with C14 as R14.5): what cache.GetWithExpiration hands back is the stored object itself
+// (no copy), shared by every caller and by results already returned: it may be read, never written through. And the value a cache
+// callback stores is what it fetched: a family-narrowing conversion (To4 / To16) of a fetched address turns a valid IPv6 answer
+// into nil, which is then cached as a success.
+func checkCachedValueUntouched(c *Ctx, rule string) {
+	R := c.R
+	n := 0
+	for _, f := range c.P.ModFuncs {
+		fn := core.FuncName(f)
+		for _, b := range f.Blocks {
+			for _, in := range b.Instrs {
+				call, ok := in.(*ssa.Call)
+				if !ok || call.Common().StaticCallee() == nil {
+					continue
+				}
+				cal := call.Common().StaticCallee()
+				if !strings.HasPrefix(cal.Name(), "GetWithExpiration") || core.ShortPkg(core.FuncPkg(cal)) != "cache" {
+					continue
+				}
+				n++
+				written := false
+				for _, r := range *call.Referrers() {
+					ex, ok := r.(*ssa.Extract)
+					if !ok || ex.Index != 0 {
+						continue
+					}
+					for _, r2 := range *ex.Referrers() {
+						ia, ok := r2.(*ssa.IndexAddr)
+						if !ok || ia.X != ssa.Value(ex) {
+							continue
+						}
+						for _, r3 := range *ia.Referrers() {
+							if st, ok := r3.(*ssa.Store); ok && st.Addr == ssa.Value(ia) {
+								written = true
+							}
+						}
+					}
+				}
+				R.Check(!written, rule, fn+"#cached-value-untouched", call.Pos(), fn, "the value obtained from the cache is only read", "an element of the value obtained from the cache is assigned in place: the cache hands out the stored slice itself, so this writes, without any lock, into memory that concurrent lookups and results already returned are reading")
+				// the callback handed to the cache
+				if len(call.Common().Args) >= 2 {
+					if mc, ok := c.P.Def(call.Common().Args[1]).(*ssa.MakeClosure); ok {
+						cb := mc.Fn.(*ssa.Function)
+						for _, g := range ModReach(c.P, cb) {
+							if core.FuncPkg(g) != core.FuncPkg(cb) {
+								continue
+							}
+							for _, gb := range g.Blocks {
+								for _, gin := range gb.Instrs {
+									gc, ok := gin.(*ssa.Call)
+									if !ok || gc.Common().StaticCallee() == nil {
+										continue
+									}
+									if nm := gc.Common().StaticCallee().String(); nm == "(net.IP).To4" || nm == "(net.IP).To16" {
+										R.Fail(rule, core.FuncName(g)+"#cached-address-family", gc.Pos(), core.FuncName(g), "the value stored in the cache passes through "+nm+": it is nil for an address of the other family, and the nil is cached as a success - the valid answer is lost and no provider is asked again until the entry expires")
+									}
+								}
+							}
+						}
+					}
+				}
+			}
+		}
+	}
+	R.Floor(rule+":cache-reads", n, 2)
+}
+
 func runC18(c *Ctx) {
 	checkLookupsConcurrent(c, "R18.5")
+	checkCachedValueUntouched(c, "R18.3")
 	checkLookupSpelling(c)
 	checkBodyReadWhole(c)
 	R := c.R
